@@ -92,6 +92,7 @@ class ProgGen:
         self.preds = []          # (name, arity) callable so far
         self.clauses = []
         self.nsol = {}
+        self.cut_last = set()
 
     # -- facts ---------------------------------------------------------------
     def gen_facts(self):
@@ -149,6 +150,9 @@ class ProgGen:
         """a goal as a term: ('A', name) or ('F', name, args), with the last `drop` arguments left off"""
         rnd = self.rnd
         cands = [p for p in self.preds if p[1] >= drop]
+        special = [p for p in cands if p in self.cut_last]
+        if special and rnd.random() < 0.4:
+            cands = special          # meta-calls on predicates whose answers are `yield True`
         if not cands:
             return ('A', 'nope'), 0
         name, arity = rnd.choice(cands)
@@ -286,6 +290,13 @@ class ProgGen:
                 odd = vs[0] not in VARS
                 head = [sterm(rnd, vs, 1, 0.7, anon=0.25 if odd else 0.05) for _ in range(arity)]
                 body = self.body(vs, rnd.randint(1, self.k.max_body))
+                if self.k.cut and rnd.random() < 0.3:
+                    # a clause that ends in a cut: its last answer is a `yield True`
+                    body = ('conj', body, 'cut')
+                    self.cut_last.add((name, arity))
+                elif self.k.cut and rnd.random() < 0.15:
+                    # the cut-fail idiom: when the body gets this far, the predicate has no (more) answers
+                    body = ('conj', body, ('conj', 'cut', 'fail'))
                 self.clauses.append((name, head, body, True))
             self.preds.append((name, arity))
         return self.clauses
